@@ -678,6 +678,9 @@ func saveScriptLint(r *Report) {
 		if !r.Anchor("R40c", "script text of "+sc.name, src != "") {
 			continue
 		}
+		ctor := pkgVarCallFuncName(r.P, omPkg, sc.name)
+		r.Ob("R40c", nil, sc.name+":not-resent-automatically", token.NoPos, ctor == "NewLuaScript" || ctor == "NewLuaScriptNoSha",
+			"a compare-and-set script must not be built retryable: re-sent after a lost reply it meets the version it wrote itself and answers nil, so a save that was applied is reported as ErrVersionMismatch (constructor: "+ctor+")")
 		pos := token.NoPos
 		if pk := r.P.Pkg(omPkg); pk != nil {
 			if o := pk.Types.Scope().Lookup(sc.name); o != nil {
@@ -1005,6 +1008,28 @@ func codecPair(enc, dec *ssa.Function, ptr bool) (bool, string) {
 			return false, "a pointer decoder must produce a pointer"
 		}
 	}
+	if !ptr {
+		// a value or slice encoder always produces text (it may only pass on a failed type assertion of
+		// the value's own interface); declining would make Save leave the field untouched
+		for _, b := range enc.Blocks {
+			ret, ok := b.Instrs[len(b.Instrs)-1].(*ssa.Return)
+			if !ok || len(ret.Results) != 2 {
+				continue
+			}
+			switch x := ret.Results[1].(type) {
+			case *ssa.Const:
+				if !constBool(x) {
+					return false, "a value/slice encoder declines (ok=false)"
+				}
+			case *ssa.Extract:
+				if _, isTA := x.Tuple.(*ssa.TypeAssert); !isTA || x.Index != 1 {
+					return false, "a value/slice encoder's ok result is not the constant true"
+				}
+			default:
+				return false, "a value/slice encoder can decline a value (" + DescDeep(ret.Results[1]) + "): Save would succeed without writing the field"
+			}
+		}
+	}
 	switch {
 	case len(codecs) == 1 && codecs[0] == "strconv.FormatInt":
 		p := dc["strconv.ParseInt"]
@@ -1282,4 +1307,40 @@ func extractOf2(n *ssa.Next, idx int) ssa.Value {
 		}
 	}
 	return nil
+}
+
+// pkgVarCallFuncName returns the selector name of the call that initialises `var <name> = pkg.F(...)`.
+func pkgVarCallFuncName(p *Prog, pkgShort, name string) string {
+	pkg := p.Pkg(pkgShort)
+	if pkg == nil {
+		return ""
+	}
+	for _, f := range pkg.Syntax {
+		for _, d := range f.Decls {
+			gd, ok := d.(*ast.GenDecl)
+			if !ok {
+				continue
+			}
+			for _, sp := range gd.Specs {
+				vs, ok := sp.(*ast.ValueSpec)
+				if !ok {
+					continue
+				}
+				for i, n := range vs.Names {
+					if n.Name != name || i >= len(vs.Values) {
+						continue
+					}
+					if ce, ok := vs.Values[i].(*ast.CallExpr); ok {
+						switch fn := ce.Fun.(type) {
+						case *ast.SelectorExpr:
+							return fn.Sel.Name
+						case *ast.Ident:
+							return fn.Name
+						}
+					}
+				}
+			}
+		}
+	}
+	return ""
 }
